@@ -101,6 +101,46 @@ func c12Run(sc *C12Scenario, withUntrusted bool, flags map[string]bool) (out *c1
 			u.deliver(sn, wire.NewMsgVersion(me, me, 9, 5))
 		case "verify":
 			u.verify(sn)
+		case "stale":
+			// linked headers of a branch the node is not (or no longer) on, starting near its tip:
+			// what a peer left behind by a reorganisation answers
+			tipNow := sn.node.blocks.LastHeight()
+			var cands []*verifkit.TBlock
+			var cnames []string
+			for n := range tree.ByName {
+				cnames = append(cnames, n)
+			}
+			sortStrings(cnames)
+			for _, n := range cnames {
+				b := tree.ByName[n]
+				if b.Height < 1 || b.Height > tipNow || b.Height < tipNow-5 {
+					continue
+				}
+				if hh, err := sn.node.blocks.Hash(sn.ctx, b.Height); err == nil && *hh != b.Hash {
+					cands = append(cands, b)
+				}
+			}
+			if len(cands) == 0 {
+				return
+			}
+			b := cands[ev.Tx%len(cands)]
+			ev.Names = []string{b.Name}
+			for {
+				var child *verifkit.TBlock
+				for _, n := range cnames {
+					if c := tree.ByName[n]; c.Parent == b {
+						child = c
+						break
+					}
+				}
+				if child == nil || len(ev.Names) >= 6 {
+					break
+				}
+				ev.Names = append(ev.Names, child.Name)
+				b = child
+			}
+			flags["stale-branch-headers"] = true
+			fallthrough
 		case "headers":
 			hm := wire.NewMsgHeaders()
 			var first *verifkit.TBlock
@@ -363,7 +403,7 @@ func genC12(t *rapid.T) *C12Scenario {
 	nu := rapid.IntRange(1, 25).Draw(t, "nuev")
 	for i := 0; i < nu; i++ {
 		ev := C12UEvent{After: rapid.IntRange(-1, len(plan.Events)-1).Draw(t, "after"), Conn: rapid.IntRange(0, 2).Draw(t, "conn"),
-			Op: rapid.SampledFrom([]string{"version", "verify", "verify", "headers", "headers", "inv", "tx", "tx", "exttx", "badtx", "block", "block", "block", "addr", "reject", "check"}).Draw(t, "uop")}
+			Op: rapid.SampledFrom([]string{"version", "verify", "verify", "headers", "headers", "stale", "inv", "tx", "tx", "exttx", "badtx", "block", "block", "block", "addr", "reject", "check"}).Draw(t, "uop")}
 		switch ev.Op {
 		case "verify":
 			// an honest verification needs the node to know recent headers: place it late
@@ -377,6 +417,11 @@ func genC12(t *rapid.T) *C12Scenario {
 				} else {
 					ev.Names = append(ev.Names, rapid.SampledFrom(names).Draw(t, "hn"))
 				}
+			}
+		case "stale":
+			ev.Tx = rapid.IntRange(0, 7).Draw(t, "which")
+			if n := len(plan.Events); n > 2 {
+				ev.After = rapid.IntRange(n/2, n-1).Draw(t, "safter")
 			}
 		case "inv", "tx", "exttx", "badtx":
 			ev.Tx = rapid.IntRange(0, len(sc.Txs)-1).Draw(t, "tx")
@@ -394,7 +439,7 @@ func c12Nontrivial(f map[string]bool) bool {
 	return f["untrusted-tx-reached-node"] || f["untrusted-block-for-requested"] || f["untrusted-bad-body-for-requested-block"] || f["untrusted-unfetchable-tx"]
 }
 
-const c12Rule = "non-interference pairs in step mode: a well-behaved trusted history (C01 generator without restarts) run alone and interleaved with up to 3 untrusted connections (real UntrustedNode objects without sockets) sending version, verification headers of any shape (valid, unknown first, too-low first, unlinked, unknown headers), inv, tx (plain and extmsg-wrapped; relevant, conflicting, irrelevant, or relevant but spending outputs nobody can supply), blocks (any tree block, both forms, including a body that differs under the header of an outstanding trusted request), addr, reject and activity checks; oracle: identical HandleHeaders sequence, final chain and set of txids reported with a proof; B converges; verification only by linked recent known headers; unverified connections cause no getdata and no delivery; nothing untrusted peers introduced is marked trusted or reported safe; non-trivial = untrusted messages reached shared state (post-verification tx/inv, or a block for an outstanding request); distinct by scenario hash"
+const c12Rule = "non-interference pairs in step mode: a well-behaved trusted history (C01 generator without restarts) run alone and interleaved with up to 3 untrusted connections (real UntrustedNode objects without sockets) sending version, verification headers of any shape (valid, unknown first, too-low first, unlinked, unknown headers, linked headers of a branch the node has left), inv, tx (plain and extmsg-wrapped; relevant, conflicting, irrelevant, or relevant but spending outputs nobody can supply), blocks (any tree block, both forms, including a body that differs under the header of an outstanding trusted request), addr, reject and activity checks; oracle: identical HandleHeaders sequence, final chain and set of txids reported with a proof; B converges; verification only by linked recent known headers; unverified connections cause no getdata and no delivery; nothing untrusted peers introduced is marked trusted or reported safe; non-trivial = untrusted messages reached shared state (post-verification tx/inv, or a block for an outstanding request); distinct by scenario hash"
 
 func TestC12NonInterference(t *testing.T) {
 	rep := verifkit.NewReport("C12", "TestC12NonInterference", c12Rule)
